@@ -94,7 +94,18 @@ def run(chk):
     for bad in ["'\\", "'\\u", "'\\U", "'\\x", "'\\0", "'\\07", "'\\8", "'\\ud800\\udc00'", "b'\\ud800'", "f'{'\\ud800'}'", "'\\N{X}'", "'\\c'",
                 "1e99999", "1e-99999", "0x" + "f" * 40, "9" * 400, "1." + "0" * 400, "." * 50, "'" + "\\" * 51 + "'"]:
         lits.append(bad)
-    all_src = srcs + muts + rand + lits
+    # every name that is, or could be taken for, a type: as a match pattern, a call, an operand and a conversion target
+    tnames = ["int", "uint", "double", "float", "string", "bool", "bytes", "list", "map", "object", "null", "null_type", "timestamp",
+              "duration", "type", "dyn", "any", "message", "struct", "optional", "set", "enum", "error", "function", "bytecode", "ident",
+              "Int", "INT", "_", "__", "in", "case", "match", "true", "false", "has", "size", "now"]
+    tsrcs = []
+    for t in tnames:
+        for scrut in ["1", "'a'", "[1]", "{'a': 1}", "null", "x0", t]:
+            tsrcs.append("match %s { case %s: 1, case _: 2 }" % (scrut, t))
+        tsrcs += ["match 1 { case %s: 1 }" % t, "match %s { case _: 2 }" % t, "%s(1)" % t, "%s" % t, "type(1) == %s" % t, "%s == %s" % (t, t),
+                  "[1].map(v, match v { case %s: v })" % t, "f'{match 1 { case %s: 2 }}'" % t, "match 1 { case %s: 1, case %s: 2 }" % (t, t),
+                  "match 1 { case == %s: 1 }" % t, "%s in [%s]" % (t, t), "{'k': %s}.k" % t, "has(%s)" % t, "coalesce(%s)" % t]
+    all_src = srcs + muts + rand + lits + tsrcs
     cases = [evalsrc_case(s) for s in all_src]
     for prof in ("debug", "release"):
         impl = run_impl(cases, prof, isolate=True)
